@@ -30,6 +30,10 @@ pub struct PairSpec {
     pub groups: Vec<GroupSpec>,
     /// firsts of glyph rules also drawn from this builder's class-1 glyphs
     pub mix_pct: u64,
+    /// place the class-1 glyphs where the previous builder of the lookup has
+    /// its own: the coverages of the class subtables then overlap and earlier
+    /// subtables shadow later ones (stage 2 only; stage 1 is skipped)
+    pub overlap_prev: bool,
 }
 
 impl PairSpec {
@@ -45,6 +49,7 @@ impl PairSpec {
             dup_pct: 1,
             groups: vec![],
             mix_pct: 0,
+            overlap_prev: false,
         }
     }
     pub fn approx_rules(&self) -> usize {
@@ -181,7 +186,7 @@ pub fn gen_pair_plan(rng: &mut Rng, env: &Env, spec: &PairSpec, builder_idx: usi
     let n_tp = masks.len();
 
     // ---- class groups
-    let c1_base = CLASS1_BASE + builder_idx * CLASS1_SPAN;
+    let c1_base = CLASS1_BASE + (builder_idx - usize::from(spec.overlap_prev && builder_idx > 0)) * CLASS1_SPAN;
     let mut c1_pos = 0usize;
     for (gi, gs) in spec.groups.iter().enumerate() {
         let n1 = (gs.n_c1 * gs.g_per_c1).min(CLASS1_SPAN - c1_pos);
